@@ -109,6 +109,14 @@ def draw(rng, i):
         k = rng.randint(1, 5)
         return {"kind": "numitems", "alg": "numitems", "k": k, "index": rng.randrange(k), "values": [rng.randint(0, 9) for _ in range(rng.randint(0, 6))]}
     alg = C.PACKERS[i % 5]
+    if i % 50 == 7:
+        # bin size 0: every positive item is oversize
+        n = rng.randint(1, 8)
+        vals = [rng.choice([0, 0, rng.randint(1, 9)]) for _ in range(n)]
+        if not any(vals):
+            vals[rng.randrange(n)] = rng.randint(1, 9)
+        return {"kind": "pack_oversize", "alg": alg, "C": 0, "values": vals, "oversize_positions": [j for j, v in enumerate(vals) if v > 0], "ot": rng.choice(OTS),
+                "cls": "oversize/binsize0", "pres": rng.choice(C.PRESENTATIONS), "pres_seed": rng.randrange(1 << 30)}
     base = C.draw_pack_case(rng, alg=alg, nmax=rng.choice([3, 8, 12, 40, 150, 400]) if alg != "bc" else rng.choice([3, 8, 12]))
     vals = list(base["values"])
     Cs = base["C"]
